@@ -19,7 +19,7 @@ func init() {
 			"(R2) the result is written before done is closed and every read outside the completing function is dominated by a receive on done; (R3) the closer deregisters exactly the agent ref that was registered, and registration precedes the request's enqueue; " +
 			"(R4) a completion source armed before the registration is compensated by a completion re-check after it that deregisters; (R5) the kill routine completes the dying actor's pending asks with the actor-dead error on every path; " +
 			"(R6) the reply address contains a fresh UUID and is the sender of the request envelope and the registry key; (R7) forwarders/timer under the future's mutex, the agent table under its lock (no escape of the inner map). " +
-			"(R8) a forwarder is appended only after observing 'not completed' while holding the mutex under which the completing function takes the forwarder list, in one critical section. (R5, addition) the per-asker bucket of the agent table is dropped as a whole only on an edge asserting it is empty, so no registered ask is hidden from the death sweep. (R5, addition) the death sweep's closing loop is never left early, and the dying actor's pending asks are completed before its OnKill handler runs; (R10) no map of the module is keyed by a reference value: references are identified by (address, path), not by pointer. NOT decided: 'no earlier than its timeout' (clock), that Result/Wait return (they block on done; R1 shows done is closed on every completing path); timeout<=0 arms no timer by design.",
+			"(R8) a forwarder is appended only after observing 'not completed' while holding the mutex under which the completing function takes the forwarder list, in one critical section. (R5, addition) the per-asker bucket of the agent table is dropped as a whole only on an edge asserting it is empty, so no registered ask is hidden from the death sweep. (R5, addition) the death sweep's closing loop is never left early, and the dying actor's pending asks are completed before its OnKill handler runs; (R10) no map of the module is keyed by a reference value: references are identified by (address, path), not by pointer. (R6, addition) on every path the agent ref handed to the future registry is the result of the agent-ref constructor called in the ask routine itself: no reply address of an earlier (possibly timed-out) ask is re-used. NOT decided: 'no earlier than its timeout' (clock), that Result/Wait return (they block on done; R1 shows done is closed on every completing path); timeout<=0 arms no timer by design.",
 		Rules: []Rule{
 			{ID: "C04.R10", Min: 1, Desc: "references are identified by (address, path), never by pointer identity: no map is keyed by a reference value", Fn: c04RefIdentity},
 			{ID: "C04.R1", Min: 8, Desc: "one-shot completion", Fn: c04OneShot},
@@ -843,6 +843,24 @@ func c04Address(p *Program, r *Report) {
 		if c, ok := in.(*ssa.Call); ok && c.Call.StaticCallee() == f.Append {
 			app = c
 		}
+	}
+	// … and every ask gets one of its own: the agent ref registered for the new future is, on every path, the result of the
+	// constructor called in the ask routine itself — never one kept from an earlier ask (a recycled address lets the late reply to
+	// a timed-out request complete the NEXT request's future).
+	if app != nil && len(app.Call.Args) > 1 {
+		own := true
+		vals := g.values(app.Call.Args[1])
+		for _, v := range vals {
+			v = strip(v)
+			if ex, isEx := v.(*ssa.Extract); isEx {
+				v = ex.Tuple
+			}
+			c, isC := v.(*ssa.Call)
+			if !isC || c.Call.StaticCallee() != newAgent || c.Parent() != f.Ask {
+				own = false
+			}
+		}
+		r.Check(own && len(vals) > 0, "every ask registers a reply address created for it", app.Pos(), "on every path the agent ref handed to the future registry is the result of the agent-ref constructor called in the ask routine: no address of an earlier (possibly timed-out) ask is re-used")
 	}
 	okS := false
 	for _, in := range g.Nodes {
